@@ -25,6 +25,8 @@ def run_one(sid, jobs, tier, seeds):
     d = os.path.join(VERIF, "seeded", sid)
     meta = json.load(open(os.path.join(d, "meta.json")))
     checks = meta.get("detected_by") or [meta["property"]]
+    if meta.get("obsolete"):
+        return {"id": sid, "checks": checks, "runs": [], "status": "obsolete (no longer breaks the property on the current tree)"}
     tmp = tempfile.mkdtemp(prefix="vseedr_", dir=os.environ.get("VERIF_SCRATCH", "/tmp"))
     rec = {"id": sid, "checks": checks, "runs": []}
     try:
@@ -78,7 +80,7 @@ def main():
     with open(a.out, "w") as f:
         json.dump({"repo_head": head, "tier": a.tier, "seeds": seeds, "results": res}, f, indent=1)
         f.write("\n")
-    missed = [r["id"] for r in res if r["status"] != "caught"]
+    missed = [r["id"] for r in res if r["status"] != "caught" and not r["status"].startswith("obsolete")]
     print(f"{len(res) - len(missed)}/{len(res)} caught; not caught: {missed}")
     return 0
 
